@@ -4,6 +4,7 @@ import (
 	"context"
 	"fmt"
 	"math/rand/v2"
+	"runtime"
 	"sort"
 	"strings"
 	"sync"
@@ -589,6 +590,133 @@ func TestC13Race(t *testing.T) {
 // TestC13Hooks: the hook points hold a reader between "subring computed" and "subring cached" while a
 // topology update is installed, and an updater between "classified" and "installed" while readers fill
 // the cache. Runs serially (the hook callback is process-wide).
+// parkStrategy is the default replication strategy with a callback boundary: when armed, the next Filter call parks
+// (inside a lookup, i.e. while the ring object being read holds its read lock) until the gate opens.
+type parkStrategy struct {
+	ring.ReplicationStrategy
+	armed   *atomic.Bool
+	reached chan struct{}
+	gate    chan struct{}
+}
+
+func (p parkStrategy) Filter(instances []ring.InstanceDesc, op ring.Operation, replicationFactor int, heartbeatTimeout time.Duration, zoneAwarenessEnabled bool) ([]ring.InstanceDesc, int, error) {
+	if p.armed.CompareAndSwap(true, false) {
+		p.reached <- struct{}{}
+		<-p.gate
+	}
+	return p.ReplicationStrategy.Filter(instances, op, replicationFactor, heartbeatTimeout, zoneAwarenessEnabled)
+}
+
+// busyShard: a reader is in the middle of a lookup on a cached shuffle shard (parked inside the replication strategy,
+// holding that shard's read lock) when an update is installed and a second reader asks the long-lived client for the
+// same shard. Whatever the second reader gets - at once or after waiting for the first - must equal a fresh client's
+// shard for the latest content.
+func busyShard(t *testing.T, run *vt.Run, c vt.CaseID, rng *rand.Rand) {
+	synctest.Test(t, func(t *testing.T) {
+		za := rng.IntN(2) == 0
+		h := &hist{rng: rng, desc: ring.NewDesc(), used: map[uint32]bool{}, zones: []string{"z0", "z1"}}
+		now := time.Now().Unix()
+		for k := 0; k < 2+rng.IntN(6); k++ {
+			h.addInstance(now)
+		}
+		cfg := rk.Cfg(2, za, 100*time.Second)
+		store := rk.NewStore()
+		store.RecordGets = false
+		store.Put("harness", rk.Key, cloneDesc(h.desc))
+		ps := parkStrategy{ring.NewDefaultReplicationStrategy(), &atomic.Bool{}, make(chan struct{}, 1), make(chan struct{})}
+		L, stopL, err := rk.StartRingWithStrategy(cfg, store.Client("long-lived"), rk.Key, ps)
+		if err != nil {
+			run.Inconclusive(err.Error())
+			return
+		}
+		defer stopL()
+		id, size := fmt.Sprintf("tenant-%d", rng.IntN(3)), 1+rng.IntN(3)
+		period := time.Duration(10+rng.IntN(200)) * time.Second
+		lookback := rng.IntN(2) == 0
+		shard := func(r *ring.Ring, at time.Time) ring.ReadRing {
+			if lookback {
+				return r.ShuffleShardWithLookback(id, size, period, at)
+			}
+			return r.ShuffleShard(id, size)
+		}
+		S := shard(L, time.Now()) // computed and cached
+		time.Sleep(time.Duration(rng.IntN(3))*time.Second + time.Millisecond)
+		var updates []string
+		if ids := h.ids(); rng.IntN(3) > 0 && len(ids) > 0 {
+			// the kinds that keep cached shards and refresh them in place
+			iid := ids[rng.IntN(len(ids))]
+			in := h.desc.Ingesters[iid]
+			switch rng.IntN(3) {
+			case 0:
+				in.State = ring.InstanceState((int(in.State) + 1 + rng.IntN(3)) % 4)
+				updates = append(updates, "state-only "+iid)
+			case 1:
+				in.Timestamp = time.Now().Unix() - int64(rng.IntN(200))
+				updates = append(updates, "heartbeat-only "+iid)
+			default:
+				in.State = ring.InstanceState((int(in.State) + 1 + rng.IntN(3)) % 4)
+				in.Timestamp = time.Now().Unix()
+				updates = append(updates, "state+heartbeat "+iid)
+			}
+			h.desc.Ingesters[iid] = in
+		} else {
+			updates = append(updates, h.mutate(time.Now().Unix()))
+		}
+		store.Put("harness", rk.Key, cloneDesc(h.desc))
+		synctest.Wait()
+		keys := []uint32{0, rng.Uint32(), rng.Uint32()}
+		// reader A: in the middle of a lookup on the shard object it got earlier
+		ps.armed.Store(true)
+		doneA := make(chan struct{})
+		go func() {
+			defer close(doneA)
+			_, _ = S.Get(keys[1], ring.Read, nil, nil, nil)
+		}()
+		synctest.Wait()
+		select {
+		case <-ps.reached:
+			run.Count("busy_shard_reader_parked", 1)
+		default:
+			run.Inconclusive("the replication strategy was not reached by a lookup on the shard")
+			ps.armed.Store(false)
+		}
+		// reader B asks for the same shard and reads it
+		qAt := time.Now()
+		got := map[string]string{}
+		var bDone atomic.Bool
+		doneB := make(chan struct{})
+		go func() {
+			defer close(doneB)
+			readRingAnswers(shard(L, qAt), keys, "shard.", got)
+			bDone.Store(true)
+		}()
+		// B either finishes without waiting or blocks on the shard's lock (a mutex: not a durable block, so no
+		// synctest.Wait here); give it ample opportunity, then let A go
+		for i := 0; i < 20000 && !bDone.Load(); i++ {
+			runtime.Gosched()
+		}
+		if bDone.Load() {
+			run.Count("busy_shard_second_reader_did_not_wait", 1)
+		} else {
+			run.Count("busy_shard_second_reader_waited", 1)
+		}
+		close(ps.gate)
+		<-doneA
+		<-doneB
+		synctest.Wait()
+		F, stopF, err := freshRing(h.desc, cfg)
+		if err != nil {
+			run.Inconclusive(err.Error())
+			return
+		}
+		defer stopF()
+		want := map[string]string{}
+		readRingAnswers(shard(F, qAt), keys, "shard.", want)
+		compare(run, c, got, want, updates, "second reader of a shard that is busy being read")
+		run.EvalH(vt.Mix(uint64(c.Idx), 0xb5, 7), true)
+	})
+}
+
 func TestC13Hooks(t *testing.T) {
 	run := vt.NewRun("C13", "exploration")
 	run.SetRule("hook-point scenarios (serial): a reader parked at ring.ShuffleShard[WithLookback].computed while an update of a random kind is installed, then released; an updater parked at ring.updateRingState.classified while readers populate the caches; afterwards every answer must equal a fresh client's.")
@@ -702,8 +830,21 @@ func TestC13Hooks(t *testing.T) {
 			break
 		}
 	}
+	for i := 0; i < vt.N(300, 6000); i++ {
+		c := vt.CaseID{Gen: "busy-shard", Idx: int64(i), Seed: vt.Seed()}
+		if rc, ok := vt.ReplayCase(); ok {
+			if rc.Gen != "busy-shard" {
+				break
+			}
+			c = rc
+		}
+		busyShard(t, run, c, c.Rand())
+		if _, ok := vt.ReplayCase(); ok {
+			break
+		}
+	}
 	run.SetExtra("hook_points_reached", hookHits.Load())
-	if hookHits.Load() == 0 {
+	if _, replaying := vt.ReplayCase(); hookHits.Load() == 0 && !replaying {
 		run.Inconclusive("no hook point was reached")
 	}
 	run.Finish(t)
